@@ -1,6 +1,8 @@
 package eval
 
 import (
+	"reflect"
+
 	"src.elv.sh/pkg/eval/errs"
 	"src.elv.sh/pkg/eval/vals"
 )
@@ -24,11 +26,29 @@ func not(v any) bool {
 
 func is(args ...any) bool {
 	for i := 0; i+1 < len(args); i++ {
-		if args[i] != args[i+1] {
+		if !identical(args[i], args[i+1]) {
 			return false
 		}
 	}
 	return true
+}
+
+// identical is a == b, except that two values of a type that Go cannot compare
+// with == (styled text is a slice) are identical when they are the same slice,
+// map or function, instead of panicking.
+func identical(a, b any) bool {
+	t := reflect.TypeOf(a)
+	if t == nil || t != reflect.TypeOf(b) || t.Comparable() {
+		return a == b
+	}
+	va, vb := reflect.ValueOf(a), reflect.ValueOf(b)
+	switch t.Kind() {
+	case reflect.Slice:
+		return va.Len() == vb.Len() && va.Pointer() == vb.Pointer()
+	case reflect.Map, reflect.Func:
+		return va.Pointer() == vb.Pointer()
+	}
+	return false
 }
 
 func eq(args ...any) bool {
